@@ -5,6 +5,12 @@
           prints for every cc "<holdsX><holdsY>" using the extracted verified checker cc_holdsb.
    trace: line "rk xAxis yAxis iters" (0/1 0/1 0/1 n): prints the projections (solves) of the model's run_trace in program order,
           one letter per WProj (x / y), and the model's last_write to X and to Y (P = a projection output of that dimension).
+   cursor: the sub-constraint cursor protocol of makeFeasible() (Cola/SubCursorModel.v).  Line = the case (cc list) followed by
+          one "| w_0 ... w_{ncc-1}" group per makeFeasible() call: w_j has one character per sub-constraint of object j, the decision
+          the implementation was observed to take (1 / 0 = markCurrSubConstraintAsActive(true / false), x = never marked; "-" when
+          the object has no sub-constraints).  The objects are `constructed` once and threaded through the calls (mf_call with the
+          rewind, the oracle = the observed decisions); prints per call and per object  kind:n:cursor:flags:trace  (kind N / C / S,
+          trace = cc_trace in the harness's event syntax), calls separated by " | ".
    Z and Q stay the Coq datatypes. *)
 open C07_model
 
@@ -83,12 +89,43 @@ let trace_line line =
   let lw d = match last_write d tr with Some (WProj d') when d' = d -> "P" | Some _ -> "other" | None -> "none" in
   Printf.printf "%s %s %s\n" (Buffer.contents b) (lw DX) (lw DY)
 
+let cursor_line line =
+  let parts = String.split_on_char '|' line in
+  let ints s = Array.of_list (List.map int_of_string (List.filter (fun x -> x <> "") (String.split_on_char ' ' (String.trim s)))) in
+  let tk = { t = ints (List.hd parts); p = 0 } in
+  let (_, ccs) = parse_case tk in
+  let calls = List.map (fun s -> Array.of_list (List.filter (fun x -> x <> "") (String.split_on_char ' ' (String.trim s)))) (List.tl parts) in
+  let fuel = nat_of_int (2 + List.fold_left (fun m c -> max m (int_of_nat (cc_nsubs c))) 0 ccs) in
+  let st = ref (constructed ccs) in
+  let b = Buffer.create 256 in
+  let ev_str e = match e with
+    | EInactive _ -> "I" | ERemaining (_, r) -> if r then "R1" else "R0" | EOffer (_, k) -> Printf.sprintf "G%d" (int_of_nat k)
+    | ETry (_, _, _, _) -> "T" | EMark (_, k, s) -> Printf.sprintf "M%d:%d" (int_of_nat k) (if s then 1 else 0) in
+  List.iteri (fun ci w ->
+    if ci > 0 then Buffer.add_string b " | ";
+    let dec c k =
+      let c = int_of_nat c and k = int_of_nat k in
+      if c < Array.length w && k < String.length w.(c) then (match w.(c).[k] with '1' -> Some true | '0' -> Some false | _ -> None) else None in
+    match mf_call (oracle_of dec) true fuel !st [] with
+    | ROutOfFuel -> Buffer.add_string b "FUEL"
+    | RAssert -> Buffer.add_string b "ASSERT"
+    | ROk (st', a) ->
+      st := st';
+      List.iteri (fun j s ->
+        if j > 0 then Buffer.add_char b ' ';
+        let fl = String.concat "" (List.map (fun x -> if x then "1" else "0") s.cflags) in
+        let tr = String.concat "," (List.map ev_str (cc_trace (nat_of_int j) a.a_log)) in
+        Buffer.add_string b (Printf.sprintf "%s:%d:%d:%s:%s" (match s.ck with KNormal -> "N" | KCombine -> "C" | KSkip -> "S")
+                               (int_of_nat s.cn) (int_of_nat s.ccur) (if fl = "" then "-" else fl) (if tr = "" then "-" else tr))) st') calls;
+  Buffer.add_char b '\n'; print_string (Buffer.contents b)
+
 let () =
   let mode = if Array.length Sys.argv > 1 then Sys.argv.(1) else "gen" in
   try
     while true do
       let line = input_line stdin in
       if String.length line > 0 && mode = "trace" then trace_line line
+      else if String.length line > 0 && mode = "cursor" then cursor_line line
       else if String.length line > 0 then begin
         let parts = String.split_on_char '|' line in
         let ints s = Array.of_list (List.map int_of_string (List.filter (fun x -> x <> "") (String.split_on_char ' ' (String.trim s)))) in
